@@ -147,8 +147,14 @@ class ClassInfo:
         self.attrs: Dict[str, ast.AST] = {}  # class-level assignments (value nodes)
         self.method_aliases: Dict[str, str] = {}
         self.base_names = [norm_text(b) for b in node.bases]
+        self.copy_hooks: Dict[str, FunctionInfo] = {}
         for st in node.body:
-            if isinstance(st, ast.FunctionDef):
+            if isinstance(st, ast.FunctionDef) and st.name == "__deepcopy__":
+                # a deep-copy hook is not part of the analysed program: copy.deepcopy(x) is modelled as the structural deep
+                # copy, and C20 R20.4 verifies that the hook is one (every field deep-copied, or immutable, or a fresh
+                # container of immutable elements); a hook it cannot verify stops the analysis
+                self.copy_hooks[st.name] = FunctionInfo(module, st, self)
+            elif isinstance(st, ast.FunctionDef):
                 self.methods[st.name] = FunctionInfo(module, st, self)
             elif isinstance(st, ast.Assign):
                 for t in st.targets:
@@ -434,6 +440,7 @@ class Repo:
             self.modules[name] = Module(self, name, p, is_pkg)
         self._inline_named_constants()
         self._positional_calls()
+        self._inline_field_aliases()
         self._short_index: Dict[str, List[FunctionInfo]] = {}
         for fi in self.functions():
             self._short_index.setdefault(fi.short, []).append(fi)
@@ -481,6 +488,158 @@ class Repo:
         for fi in list(self.functions()):
             for i, st in enumerate(fi.node.body):
                 fi.node.body[i] = R(fi).visit(st)
+            ast.fix_missing_locations(fi.node)
+
+    def _inline_field_aliases(self):
+        """`sv = self.sv` ... `sv[0] += v[0]` ... `Line(sv, self.dv)`: a local bound ONCE to a field of a parameter names the
+        same object as the field for as long as the field is not re-bound.  Such locals are read as the field itself
+        (performance commits introduce them in bulk), provided that inside the function
+          * the local has exactly one definition and the parameter is never re-assigned,
+          * no statement stores into an attribute of that name (`X.f = ...`, `X.f += ...`) and
+          * no method is called that -- directly or through other methods of its class -- re-binds an attribute of
+            that name (by method name, over all classes of the package)."""
+        from .astutil import single_defs
+        # attribute name -> names of methods that (transitively) re-bind it
+        direct: Dict[str, Set[str]] = {}
+        calls: Dict[str, Set[str]] = {}
+        for fi in self.functions():
+            if fi.cls is None or fi.self_name is None:
+                continue
+            for n in walk_local(fi.node):
+                tg = []
+                if isinstance(n, ast.Assign):
+                    tg = n.targets
+                elif isinstance(n, (ast.AugAssign, ast.AnnAssign)):
+                    tg = [n.target]
+                for t in tg:
+                    for x in ast.walk(t):
+                        if isinstance(x, ast.Attribute) and isinstance(x.ctx, ast.Store):
+                            direct.setdefault(x.attr, set()).add(fi.name)
+                if isinstance(n, ast.Call) and isinstance(n.func, ast.Attribute):
+                    calls.setdefault(fi.name, set()).add(n.func.attr)
+        rebinders: Dict[str, Set[str]] = {}
+        for f, ms in direct.items():
+            cur = set(ms)
+            changed = True
+            while changed:
+                changed = False
+                for m, cs in calls.items():
+                    if m not in cur and cs & cur:
+                        cur.add(m)
+                        changed = True
+            rebinders[f] = cur
+
+        def _rebinds(n, f, base) -> bool:
+            """a call that may re-bind the attribute f OF THE OBJECT `base`: a method that (transitively) stores an attribute
+            of that name, called on `base` itself or handed `base` as an argument (a method called on a sub-object re-binds
+            the sub-object's own fields)"""
+            if not (isinstance(n, ast.Call) and isinstance(n.func, ast.Attribute) and n.func.attr in rebinders.get(f, ())
+                    and n.func.attr != "__init__"):
+                return False
+            if isinstance(n.func.value, ast.Name) and n.func.value.id == base:
+                return True
+            return any(isinstance(a, ast.Name) and a.id == base for a in list(n.args) + [k.value for k in n.keywords])
+
+        class R(ast.NodeTransformer):
+            def __init__(self, amap):
+                self.amap = amap
+
+            def visit_Name(self, n):
+                if isinstance(n.ctx, ast.Load) and n.id in self.amap:
+                    return ast.copy_location(copy.deepcopy(self.amap[n.id]), n)
+                return n
+
+        import copy
+        for fi in list(self.functions()):
+            store_count: Dict[str, int] = {}
+            for x in ast.walk(fi.node):
+                if isinstance(x, ast.Name) and isinstance(x.ctx, (ast.Store, ast.Del)):
+                    store_count[x.id] = store_count.get(x.id, 0) + 1
+                elif isinstance(x, (ast.For, ast.comprehension)):
+                    pass
+            par_of: Dict[int, Tuple[ast.AST, list, int]] = {}
+            for n in ast.walk(fi.node):
+                for fld in ("body", "orelse", "finalbody"):
+                    L = getattr(n, fld, None)
+                    if isinstance(L, list):
+                        for i, st in enumerate(L):
+                            if isinstance(st, ast.stmt):
+                                par_of[id(st)] = (n, L, i)
+            cands = []
+            for st in walk_local(fi.node):
+                if isinstance(st, ast.Assign) and len(st.targets) == 1 and isinstance(st.targets[0], ast.Name):
+                    v = st.value
+                    x = st.targets[0].id
+                    if isinstance(v, ast.Attribute) and isinstance(v.value, ast.Name) and v.value.id in fi.params \
+                            and store_count.get(v.value.id, 0) == 0 and store_count.get(x, 0) == 1 and id(st) in par_of:
+                        cands.append((st, x, v))
+            # second form:  x = e ; ... ; p.f = x   -- from the store on, x names the field's value
+            for st in walk_local(fi.node):
+                if isinstance(st, ast.Assign) and len(st.targets) == 1 and isinstance(st.targets[0], ast.Attribute) \
+                        and isinstance(st.targets[0].value, ast.Name) and st.targets[0].value.id in fi.params \
+                        and store_count.get(st.targets[0].value.id, 0) == 0 and isinstance(st.value, ast.Name) \
+                        and st.value.id not in fi.params and store_count.get(st.value.id, 0) == 1 and id(st) in par_of:
+                    t = st.targets[0]
+                    f, x = t.attr, st.value.id
+                    others = [n for n in ast.walk(fi.node) if isinstance(n, ast.Attribute) and n.attr == f
+                              and isinstance(n.ctx, (ast.Store, ast.Del)) and n is not t]
+                    calls_rebinder = any(_rebinds(n, f, t.value.id) for n in ast.walk(fi.node))
+                    nested = any(isinstance(n, (ast.FunctionDef, ast.Lambda)) and n is not fi.node
+                                 and any(isinstance(y, ast.Name) and y.id == x for y in ast.walk(n)) for n in ast.walk(fi.node))
+                    if others or calls_rebinder or nested or (fi.cls is not None and fi.cls.lookup(f) is not None):
+                        continue
+                    owner, blk, k = par_of[id(st)]
+                    repl = ast.Attribute(value=ast.Name(id=t.value.id, ctx=ast.Load()), attr=f, ctx=ast.Load())
+                    for i in range(k + 1, len(blk)):
+                        blk[i] = R({x: ast.copy_location(repl, st)}).visit(blk[i])
+                    ast.fix_missing_locations(fi.node)
+            # third form:  add = point_set.add ; ... add(p)   -- a bound method of a container that is never re-bound
+            for st in list(walk_local(fi.node)):
+                if isinstance(st, ast.Assign) and len(st.targets) == 1 and isinstance(st.targets[0], ast.Name) \
+                        and isinstance(st.value, ast.Attribute) and isinstance(st.value.value, ast.Name) \
+                        and st.value.attr in ("add", "append", "extend", "update", "insert", "discard", "remove", "setdefault") \
+                        and store_count.get(st.targets[0].id, 0) == 1 and st.targets[0].id not in fi.params:
+                    X = st.value.value.id
+                    if store_count.get(X, 0) > (0 if X in fi.params else 1):
+                        continue
+                    f = st.targets[0].id
+                    uses = [n for n in ast.walk(fi.node) if isinstance(n, ast.Name) and n.id == f and isinstance(n.ctx, ast.Load)]
+                    call_funcs = {id(n.func) for n in ast.walk(fi.node) if isinstance(n, ast.Call)}
+                    if not uses or any(id(u) not in call_funcs for u in uses):
+                        continue  # the bound method escapes (passed on / stored): leave it alone
+                    for i, s2 in enumerate(fi.node.body):
+                        fi.node.body[i] = R({f: st.value}).visit(s2)
+                    ast.fix_missing_locations(fi.node)
+            if not cands:
+                continue
+            for st, x, v in cands:
+                f = v.attr
+                owner, blk, k = par_of[id(st)]
+                top = owner is fi.node
+                if x in fi.params and not top:
+                    continue
+                prev = blk[k - 1] if k > 0 else None
+                bad = False
+                for n in ast.walk(fi.node):
+                    if isinstance(n, ast.Attribute) and n.attr == f and isinstance(n.ctx, (ast.Store, ast.Del)):
+                        # the store of a desugared chain  `p.f = e ; x = p.f`  directly in front of the alias is the binding itself
+                        if not (isinstance(prev, ast.Assign) and len(prev.targets) == 1 and prev.targets[0] is n
+                                and isinstance(n.value, ast.Name) and n.value.id == v.value.id):
+                            bad = True
+                    if _rebinds(n, f, v.value.id):
+                        bad = True
+                    if isinstance(n, (ast.FunctionDef, ast.Lambda, ast.AsyncFunctionDef)) and n is not fi.node:
+                        bad = bad or any(isinstance(y, ast.Name) and y.id == x for y in ast.walk(n))
+                if fi.cls is not None and fi.cls.lookup(f) is not None:
+                    bad = True  # a bound method / property, not a data field
+                if bad:
+                    continue
+                if top:
+                    for i in range(k + 1, len(blk)):
+                        blk[i] = R({x: v}).visit(blk[i])
+                else:
+                    for i, s2 in enumerate(fi.node.body):
+                        fi.node.body[i] = R({x: v}).visit(s2)
             ast.fix_missing_locations(fi.node)
 
     def _positional_calls(self):
@@ -604,7 +763,14 @@ class Repo:
             for fi_ in list(m.functions.values()) + [f for c in m.classes.values() for f in c.methods.values()]:
                 for n in ast.walk(fi_.node):
                     ctx[id(n)] = fi_.short
+            hook_nodes = set()
+            for c in m.classes.values():
+                for h in c.copy_hooks.values():
+                    for n in ast.walk(h.node):
+                        hook_nodes.add(id(n))
             for n in ast.walk(m.tree):
+                if id(n) in hook_nodes:
+                    continue  # verified separately (C20 R20.4)
                 who = ctx.get(id(n), "<module>")
                 if isinstance(n, ast.Name) and n.id in DYNAMIC_NAMES:
                     found.append((who, n.id, loc(m, n)))
